@@ -272,6 +272,14 @@ def job_ground():
                     ndecl += 1
                     if a not in attrs_ok:
                         badnames.append((k, op, lst, a))
+    # the input writers declare attributes through the same decorators and their lists appear in the same documentation
+    for k, m in source.import_repo("iodata.api").INPUT_MODULES.items():
+        f = getattr(m, "write_input", None)
+        for lst in ("required", "optional"):
+            for a in getattr(f, lst, None) or []:
+                ndecl += 1
+                if a not in attrs_ok:
+                    badnames.append(("inputs." + k, "write_input", lst, a))
     rec("every-declared-attribute-name-is-an-IOData-attribute", not badnames, detail=str(badnames), witness={"names": [str(b) for b in badnames]} if badnames else None)
     # the command-line description lists exactly the modules that have each operation
     mm = source.import_repo("iodata.__main__")
